@@ -8,6 +8,7 @@ import ThriftVerif.Props.C10
 #print axioms Props.C10.fast_read_eq_std_on_written
 #print axioms Props.C10.fast_read_tolerates_unknown
 #print axioms Props.C10.fast_read_no_panic
+#print axioms Props.C10.fast_read_no_panic_with_repaired_skip
 #print axioms Props.C10.gopkg_skip_not_bounded
 #print axioms Props.C10.fast_read_panics_on_truncation
 #print axioms Props.C10.fast_read_panics_on_type_byte
